@@ -17,6 +17,7 @@ mod hdrive;
 mod attack;
 mod expiry;
 mod tamper;
+mod lookup;
 
 fn main() {
     clock::self_test();
@@ -34,6 +35,7 @@ fn main() {
         "C08" => table::run_c07_c08("C08"),
         "C16" => table::run_c16(),
         "qdebug" => query::debug_one(),
+        "ldebug" => lookup::debug(),
         "C18" => filter::run(),
         "C20" => ssim::run_c20(),
         "C14" => ssim::run_c14(),
